@@ -43,7 +43,7 @@ ASSUME = [
     "annotations are not modelled (printers are created without annotations by to_smtlib/serialize)",
     "array index sorts are first-order in Sem.v",
     "tree and DAG soundness theorems: every operator except Pow; string constants printable ASCII without backslash; array values assigned at pairwise distinct Bool/Int/BV/String constants; the arguments of Iff / extract / rotate / extend lie in C01's fragment okt (proofs/SimplifierSemBase_proofs.v: okt_sound gives the sort of their value)",
-    "script_wellformed: no general theorem yet (needs the static-sorting half); std_script_ok is evaluated inside Coq on every correspondence case and compared with the independent reader's verdict",
+    "script_wellformed: proved for both printers (C07_script_wellformed_partial, closed under the global context) under explicit side conditions: sort/symbol names read back and are pairwise distinct, the sorts of the free symbols read back over the declared sorts, the formula is Bool-typed, in wfp over the signature the declarations build and satisfies srt (no function-sorted term, ordered extract indices, array-value sorts read back); that the repaired TypesOracle reports EVERY custom sort the formula uses is a hypothesis of that theorem (sorts must read back over script_sig t), checked on every correspondence case (incl. the 240 SORT-SHAPE scripts) by evaluating std_script_ok inside Coq",
 ]
 
 THEORY_NAMES = set(smtread.THEORY) | {"true", "false"}
